@@ -26,27 +26,36 @@ def _init(wd):
     drv.prepare_cwd(os.path.join(wd, 'cwd-%d' % os.getpid()))
 
 
-def drive(sd, n, wd, budget):
+def drive(sd, n, wd, stall):
+    """-> (cases, hung): hung = sessions still running when no session at all had finished for `stall` seconds (every
+    session takes about a second, even on a loaded machine; executed code that never reaches its stop address spins in
+    the C simulator forever)"""
     kinds = [k for k, w in MIX for _ in range(w)]
     args = [(sd, i, kinds[i % len(kinds)], wd) for i in range(n)]
-    cases, hung = [], []
+    cases, hung = {}, []
     ctx = mp.get_context('fork')
     pool = ctx.Pool(16, initializer=_init, initargs=(wd,), maxtasksperchild=40)
     try:
-        res = [(a, pool.apply_async(drv.worker, (a,))) for a in args]
-        deadline = time.time() + budget
-        for a, r in res:
-            try:
-                c = r.get(timeout=max(1.0, deadline - time.time()))
-            except mp.TimeoutError:
-                hung.append(a)
-                continue
-            if c is not None:
-                cases.append(c)
+        pending = {i: (a, pool.apply_async(drv.worker, (a,))) for i, a in enumerate(args)}
+        last = time.time()
+        while pending:
+            ready = [i for i, (a, r) in pending.items() if r.ready()]
+            if ready:
+                last = time.time()
+                for i in ready:
+                    a, r = pending.pop(i)
+                    c = r.get()
+                    if c is not None:
+                        cases[i] = c
+            elif time.time() - last > stall:
+                hung = [a for i, (a, r) in sorted(pending.items())]
+                break
+            else:
+                time.sleep(0.05)
     finally:
         pool.terminate()
         pool.join()
-    return cases, hung
+    return [cases[i] for i in sorted(cases)], hung
 
 
 def run(tier):
@@ -54,15 +63,23 @@ def run(tier):
     wd = workdir('e01')
     sd = seed()
     cbuild.preload()
-    n, budget = (480, 150) if tier == 'quick' else (9600, 1500)
+    # the worked examples of skool-macros.rst evaluated on the specification itself (ASSUMEs of SimDocExamples.tla)
+    r0 = tlc.model_check('simmacro', 'SimDocExamples', 'SimDocExamples.cfg', workers=1, coverage=False)
+    if not r0.ok:
+        raise MachineryError('SimDocExamples: the specification does not reproduce the documented examples\n' + r0.out[-2000:])
+    rep.add_tlc(r0, 'SimDocExamples')
+    n, budget = (480, 60) if tier == 'quick' else (4800, 120)
     t0 = time.time()
     cases, hung = drive(sd, n, wd, budget)
     log('E01: %d sessions expanded by skool2asm/skool2html in %.1fs (%d not finished)' % (len(cases), time.time() - t0, len(hung)))
     for a in hung:
-        rep.violation('e01:hang:%s' % a[2], 'session %d (%s, seed %d): the tools did not finish within %ds' % (a[1], a[2], a[0], budget),
-                      {'args': list(a[:3])})
-    if not cases:
+        rep.violation('e01:hang:%s' % a[2], 'session %d (%s, seed %d): no progress for %ds (executed code never '
+                      'reached its stop address?)' % (a[1], a[2], a[0], budget), {'args': list(a[:3])})
+    if not cases and not hung:
         raise MachineryError('E01: no case was produced')
+    if not cases:
+        rep.rule = 'no session finished'
+        return rep.finish()
     # probes of the open findings run once their keys are registered (or on request)
     want = [name for name, *_ in drv.PROBES
             if os.environ.get('VERIF_E01_PROBES') == '1' or any(k.startswith('e01:probe:' + name) for k in rep.known)]
@@ -118,7 +135,7 @@ def run(tier):
             seen[t] = seen.get(t, 0) + 1
         rep.count((c['kind'], tuple(sorted(t for t in c['classes'] if not t.startswith('sim:span')))))
     lack = [t for t in REQUIRED if seen.get(t, 0) < 3]
-    if lack:
+    if lack and not hung:
         raise MachineryError('vacuous E01 run: classes (almost) never generated: %s' % lack)
     rep.evaluations = sum(len(c['ops']) * (c['asm'] + c['html']) for c in cases)
     rep.drift = sum(drift.values())
